@@ -271,6 +271,141 @@ func paramDepsWhole(fn *ssa.Function, v ssa.Value) map[string]bool {
 	return out
 }
 
+// checkSharedCloneLocked implements R10.9 (lock-set analysis per function, closures included).
+func checkSharedCloneLocked(p *core.Prog, r *core.Result, rule string) {
+	pkgVcs := core.ModulePath + "/internal/vcs"
+	tp := p.TPkgPath(pkgVcs)
+	if tp == nil {
+		r.Unk(rule, "anchor:internal/vcs", "-", "package not found")
+		return
+	}
+	isGoGit := func(t types.Type, name string) bool {
+		if pt, ok := t.(*types.Pointer); ok {
+			t = pt.Elem()
+		}
+		n, ok := t.(*types.Named)
+		return ok && n.Obj().Name() == name && n.Obj().Pkg() != nil && strings.Contains(n.Obj().Pkg().Path(), "go-git/go-git")
+	}
+	type holder struct {
+		named     *types.Named
+		repoField string
+		mutexes   []string
+	}
+	var holders []holder
+	names := tp.Scope().Names()
+	sort.Strings(names)
+	for _, name := range names {
+		tn, ok := tp.Scope().Lookup(name).(*types.TypeName)
+		if !ok {
+			continue
+		}
+		named, ok := tn.Type().(*types.Named)
+		if !ok {
+			continue
+		}
+		st, ok := named.Underlying().(*types.Struct)
+		if !ok {
+			continue
+		}
+		h := holder{named: named}
+		for i := 0; i < st.NumFields(); i++ {
+			f := st.Field(i)
+			if isGoGit(f.Type(), "Repository") {
+				h.repoField = f.Name()
+			}
+			if n, ok := f.Type().(*types.Named); ok && n.Obj().Pkg() != nil && n.Obj().Pkg().Path() == "sync" && (n.Obj().Name() == "Mutex" || n.Obj().Name() == "RWMutex") {
+				h.mutexes = append(h.mutexes, f.Name())
+			}
+		}
+		if h.repoField != "" {
+			holders = append(holders, h)
+		}
+	}
+	r.Floor(rule, len(holders), 1, "repository types that hold a go-git clone")
+	nOps := 0
+	for _, h := range holders {
+		tname := h.named.Obj().Name()
+		held := func(li *core.LockInfo, in ssa.Instruction) bool {
+			for _, m := range h.mutexes {
+				if li.MustHoldClass(in, pkgVcs+"."+tname+"."+m, core.ModeW) {
+					return true
+				}
+			}
+			return false
+		}
+		for _, fn := range p.ModuleFuncs() {
+			top := fn
+			for top.Parent() != nil {
+				top = top.Parent()
+			}
+			if top.Pkg == nil || top.Pkg.Pkg.Path() != pkgVcs || fn.Blocks == nil {
+				continue
+			}
+			// the constructor: the function that allocates the object (it is not shared before it returns)
+			constructs := false
+			for _, f := range core.WithAnons(top) {
+				core.Instrs(f, func(in ssa.Instruction) {
+					if a, ok := in.(*ssa.Alloc); ok {
+						if pt, ok := a.Type().(*types.Pointer); ok && types.Identical(pt.Elem(), h.named) {
+							constructs = true
+						}
+					}
+				})
+			}
+			if constructs {
+				continue
+			}
+			var li *core.LockInfo
+			k := 0
+			for _, c := range core.Calls(fn) {
+				what := ""
+				cc := c.Common()
+				if !cc.IsInvoke() && len(cc.Args) > 0 {
+					if cal := core.Callee(c); cal != nil && cal.Signature.Recv() != nil {
+						recv := cc.Args[0]
+						switch {
+						case core.LoadOfField(recv, pkgVcs, tname, h.repoField):
+							what = "(*git.Repository)." + cal.Name()
+						case isGoGit(recv.Type(), "Worktree"):
+							what = "(*git.Worktree)." + cal.Name()
+						}
+					}
+				}
+				if what == "" && (core.IsCallTo(c, "os", "CopyFS") || core.IsCallTo(c, "os", "DirFS")) {
+					// a copy of the work-tree directory (a string field of the holder)
+					for _, a := range cc.Args {
+						if core.DependsOn(a, core.SliceOpts{ThroughCall: func(*ssa.Call) bool { return true }}, func(x ssa.Value) bool {
+							u, ok := x.(*ssa.UnOp)
+							if !ok || u.Op != token.MUL {
+								return false
+							}
+							n, _ := core.FieldOf(u.X)
+							return n != nil && types.Identical(n, h.named)
+						}) {
+							what = "os." + core.Callee(c).Name() + " of the work tree"
+						}
+					}
+				}
+				if what == "" {
+					continue
+				}
+				if li == nil {
+					li = p.Locks(fn)
+				}
+				nOps++
+				k++
+				construct := fmt.Sprintf("%s#clone-op-%d:%s", fname(fn), k, what)
+				if len(h.mutexes) == 0 {
+					r.Bad(rule, construct, p.InstrPos(c.(ssa.Instruction)), "%s has no mutex, but its clone is shared by every concurrent fetch of the project: %s can interleave with the checkout of another revision (the download cache then holds that revision's tree under this one's name) and with go-git's own unsynchronised state", tname, what)
+					continue
+				}
+				r.Check(held(li, c.(ssa.Instruction)), rule, construct, p.InstrPos(c.(ssa.Instruction)), what+" runs with "+tname+"."+strings.Join(h.mutexes, "/")+" held", what+" can run without the repository's lock: it interleaves with the checkout or fetch of another revision on the shared clone (wrong tree in the download cache, or a corrupted go-git state)")
+			}
+		}
+	}
+	r.Floor(rule, nOps, 4, "operations on a shared clone")
+}
+
 // checkListedVersionsVerbatim implements R10.8.
 func checkListedVersionsVerbatim(p *core.Prog, r *core.Result, rule string) {
 	pkgVcs := core.ModulePath + "/internal/vcs"
@@ -394,6 +529,7 @@ func runC10(p *core.Prog, r *core.Result) {
 		"R10.7 locating the repository that owns a project path never returns 'the first answer received' from concurrent dials: which repository answers cannot depend on timing",
 		"R10.6 the version-resolution packages never order strings with < <= > >= (versions and major suffixes are ordered by semver.Compare only)",
 		"R10.8 the versions a repository lists carry each tag's own version string, verbatim: between the tag name and Version.Version there is nothing but taking the last path element (no canonicalisation or other many-to-one rewriting) - tag names are unique, so at most one listed entry per tag object equals a requested path@version and the revision a requirement resolves to does not depend on the order of the remote's ref listing",
+		"R10.9 the clone behind a repository object is used by one goroutine at a time: every operation on the go-git repository held by a vcs repository type, on its work tree (Checkout) and every copy of its work-tree directory happens while a mutex of that object is held (the constructor excepted: the object is not shared yet) - the resolver shares one repository object between all fetches of a project and the MVS library loads requirements in parallel, so without the lock 'check out A, check out B, copy, copy' stores B's tree in the download cache under A's name",
 		"R10.5 a fetched project's summary lists every requirement of its configuration, one to one, in sorted name order",
 	}
 	r.NotDecided = []string{"that the result is the minimal-version-selection solution for all graphs (the algorithm lives in github.com/pgavlin/mvs, outside the repository; behavioural)", "network/VCS behaviour behind the resolver"}
@@ -884,6 +1020,9 @@ func runC10(p *core.Prog, r *core.Result) {
 			r.Check(ok, "R10.5", "internal/mvs.(*Resolver).resolveProject#all-requirements", p.InstrPos(at), "the summary's requirement list has one entry per requirement of the fetched configuration, in sorted name order", "the summary's requirement list is not built one-to-one from the configuration's requirements in sorted order: requirement edges can be merged or dropped, and projects reachable only through them vanish from the build list")
 		}
 	}
+
+	// ---- R10.9 the shared clone is used under the repository's lock
+	checkSharedCloneLocked(p, r, "R10.9")
 
 	// ---- R10.8 listed versions are the tags' own version strings
 	checkListedVersionsVerbatim(p, r, "R10.8")
